@@ -114,8 +114,22 @@ def v3_who_may_bind(ctx):
         if not owner.path.startswith('<syntax::assignment::AssignmentParser as'):
             ctx.finding('V3', 'binder/%s' % fn_key(b.path), '%s creates a binding; only the assignment parser may' % fn_key(b.path), site=t['loc'])
             continue
+        from ..facts import norm_cond
         conds = b.cond_text(bid)
-        deep = [(render(d), v) for (_, d, v) in b.conditions(bid)]
+        deep = [(render(d2), v2) for (_, d, v) in b.conditions(bid) for d2, v2 in [norm_cond(d, v)]]
+        if b.kind == 'closure' and owner is not b:
+            # the call sits in a closure: what holds where the closure is handed over holds inside it, and a closure given to
+            # unwrap_or_else / or_else / map_or_else (as the default) runs exactly when the receiver is None
+            for obid, ot in owner.calls():
+                for k_, a_ in enumerate(ot['args']):
+                    ae = strip(owner.expr(a_), transparent=False)
+                    if ae[0] == 'aggr' and ae[1] == 'closure:' + b.path:
+                        deep += [(render(d2), v2) for (_, d, v) in owner.conditions(obid) for d2, v2 in [norm_cond(d, v)]]
+                        conds = conds + owner.cond_text(obid)
+                        cp = ot['callee']['path'] if ot.get('callee') else ''
+                        if re.search(r'Option::<.*>::(unwrap_or_else|or_else|map_or_else|ok_or_else)$', cp) and k_ == 1:
+                            deep.append(('discr(%s)' % render(owner.expr(ot['args'][0])), frozenset({0})))
+                            conds = conds + ['discr(%s)=[0]' % render(owner.expr(ot['args'][0]))]
 
         def is_false(v):       # the decision taken is `false` / `None` (discriminant 0)
             return (not isinstance(v, tuple) and set(v) == {0}) or (isinstance(v, tuple) and v[0] == 'else' and 1 in v[1] and 0 not in v[1])
